@@ -196,9 +196,14 @@ typedef struct tnode {
   struct tnode *parent;
 } tnode;
 
+/* Everything an op touches is per thread (`cdriver --threads` runs one op script per thread):
+ * jump target, thread tree node, output stream, guard arenas, registers, trampoline block. */
 static __thread sigjmp_buf *cur_jmp;
 static __thread tnode *cur_node;
-static tnode main_node;
+static __thread tnode root_node; /* of a thread that executes ops (main or a section thread) */
+static __thread FILE *g_out;     /* where the op output of this thread goes */
+#define OUT g_out
+static __thread bool g_in_section; /* --threads: inside a #thread section (`C feat` is refused) */
 
 /* Give up the work of the current thread: wait until no thread started from the frames that are
  * about to be abandoned is still running (they write into those frames), then unwind. */
@@ -249,14 +254,29 @@ static int guarded(void (*fn)(void *), void *arg) {
   return sig;
 }
 
-static void install_handlers(void) {
-  static uint8_t altstack[1 << 16] __attribute__((aligned(64)));
+#define ALTSTACK_SIZE ((size_t)1 << 16)
+/* the alternate signal stack is a per-thread attribute */
+static void *altstack_install(void) {
   stack_t ss;
-  struct sigaction sa;
-  ss.ss_sp = altstack;
-  ss.ss_size = sizeof altstack;
+  void *p = malloc(ALTSTACK_SIZE);
+  if (!p) return NULL;
+  ss.ss_sp = p;
+  ss.ss_size = ALTSTACK_SIZE;
   ss.ss_flags = 0;
   sigaltstack(&ss, NULL);
+  return p;
+}
+static void altstack_remove(void *p) {
+  stack_t ss;
+  ss.ss_sp = NULL;
+  ss.ss_size = 0;
+  ss.ss_flags = SS_DISABLE;
+  sigaltstack(&ss, NULL);
+  free(p);
+}
+
+static void install_handlers(void) {
+  struct sigaction sa;
   memset(&sa, 0, sizeof sa);
   sa.sa_sigaction = on_signal;
   sa.sa_flags = SA_SIGINFO | SA_ONSTACK;
@@ -292,7 +312,7 @@ typedef struct {
   size_t cap;
 } arena_t;
 
-static arena_t AR_CV, AR_BLK, AR_PTR, AR_IN, AR_OUT, AR_HASHER, AR_DATA;
+static __thread arena_t AR_CV, AR_BLK, AR_PTR, AR_IN, AR_OUT, AR_HASHER, AR_DATA;
 
 static bool arena_need(arena_t *a, size_t len) {
   if (len > MAX_DATA + (1 << 20)) return false;
@@ -382,19 +402,19 @@ static void put_hex(const uint8_t *p, size_t n) {
       buf[2 * i] = dig[p[i] >> 4];
       buf[2 * i + 1] = dig[p[i] & 15];
     }
-    fwrite(buf, 1, 2 * k, stdout);
+    fwrite(buf, 1, 2 * k, OUT);
     p += k;
     n -= k;
   }
 }
 static void put_flags(int flags) {
-  if (flags & FLAG_CANARY) fputs(" CANARY", stdout);
-  if (flags & FLAG_REGS) fputs(" REGS", stdout);
-  if (flags & FLAG_FAULT) fputs(" FAULT", stdout);
-  if (flags & FLAG_MISMATCH) fputs(" MISMATCH", stdout);
-  if (flags & FLAG_MUTATED) fputs(" MUTATED", stdout);
-  if (flags & FLAG_PANIC) fputs(" PANIC", stdout);
-  if (flags & FLAG_SAN) fputs(" SAN", stdout);
+  if (flags & FLAG_CANARY) fputs(" CANARY", OUT);
+  if (flags & FLAG_REGS) fputs(" REGS", OUT);
+  if (flags & FLAG_FAULT) fputs(" FAULT", OUT);
+  if (flags & FLAG_MISMATCH) fputs(" MISMATCH", OUT);
+  if (flags & FLAG_MUTATED) fputs(" MUTATED", OUT);
+  if (flags & FLAG_PANIC) fputs(" PANIC", OUT);
+  if (flags & FLAG_SAN) fputs(" SAN", OUT);
 }
 
 /* ------------------------------------------------------------------------------------------- */
@@ -527,7 +547,7 @@ typedef struct reg {
   char name[];
 } reg_t;
 #define NBUCKETS 1024
-static reg_t *buckets[NBUCKETS];
+static __thread reg_t *buckets[NBUCKETS]; /* every thread has its own registers */
 #define MAX_NAME 64
 
 static unsigned name_hash(const char *s) {
@@ -571,12 +591,12 @@ static int san_flag(int before) { return atomic_load(&g_san_reports) != before ?
 static bool finish_simple(int sig, int sanb) {
   int fl = sig_flag(sig) | san_flag(sanb);
   if (fl & FLAG_FAULT)
-    fputs("FAULT", stdout);
+    fputs("FAULT", OUT);
   else if (fl & FLAG_PANIC)
-    fputs("PANIC", stdout);
+    fputs("PANIC", OUT);
   else
-    fputs("ok", stdout);
-  if (fl & FLAG_SAN) fputs(" SAN", stdout);
+    fputs("ok", OUT);
+  if (fl & FLAG_SAN) fputs(" SAN", OUT);
   return sig == 0;
 }
 
@@ -674,10 +694,16 @@ static void do_upd(void *v) {
     blake3_hasher_update(hslot(), a->p, a->len);
 }
 
-static uint8_t g_script[256];
-static size_t g_script_len;
-static atomic_ulong g_join_count;
-static atomic_int g_live_threads;
+/* join script of the `C updtbb` in progress; the threads started by the join seam inherit the
+ * pointer of the thread that executes the op */
+typedef struct {
+  uint8_t script[256];
+  size_t len;
+  atomic_ulong joins;
+} tbbctx;
+static __thread tbbctx my_tbb;
+static __thread tbbctx *cur_tbb;
+static atomic_int g_live_threads; /* process-wide cap on threads started by the join seam */
 #define MAX_LIVE_THREADS 128
 
 static int op_upd(char **t, int nt, bool tbb) {
@@ -690,14 +716,13 @@ static int op_upd(char **t, int nt, bool tbb) {
     const char *s = t[1];
     size_t n = strlen(s);
     if (strcmp(s, "-") == 0) {
-      g_script_len = 0;
+      my_tbb.len = 0;
     } else {
-      if (n == 0 || n > sizeof g_script) return -1;
-      for (size_t i = 0; i < n; i++) {
+      if (n == 0 || n > sizeof my_tbb.script) return -1;
+      for (size_t i = 0; i < n; i++)
         if (s[i] < '0' || s[i] > '2') return -1;
-        g_script[i] = (uint8_t)(s[i] - '0');
-      }
-      g_script_len = n;
+      for (size_t i = 0; i < n; i++) my_tbb.script[i] = (uint8_t)(s[i] - '0');
+      my_tbb.len = n;
     }
   }
   data_t d;
@@ -707,20 +732,21 @@ static int op_upd(char **t, int nt, bool tbb) {
   if (!p) return -1;
   memcpy(hslot(), &r->h, sizeof(blake3_hasher));
   struct upd_arg a = {p, d.len, tbb};
-  atomic_store(&g_join_count, 0);
+  atomic_store(&my_tbb.joins, 0);
+  cur_tbb = &my_tbb;
   int sanb = san_begin();
   int sig = guarded(do_upd, &a);
   int fl = sig_flag(sig) | san_flag(sanb);
   if (sig == 0) memcpy(&r->h, hslot(), sizeof(blake3_hasher));
   if (fl & FLAG_FAULT)
-    fputs("FAULT", stdout);
+    fputs("FAULT", OUT);
   else if (fl & FLAG_PANIC)
-    fputs("PANIC", stdout);
+    fputs("PANIC", OUT);
   else if (tbb)
-    printf("ok %lu", (unsigned long)atomic_load(&g_join_count));
+    fprintf(OUT, "ok %lu", (unsigned long)atomic_load(&my_tbb.joins));
   else
-    fputs("ok", stdout);
-  if (fl & FLAG_SAN) fputs(" SAN", stdout);
+    fputs("ok", OUT);
+  if (fl & FLAG_SAN) fputs(" SAN", OUT);
   return 0;
 }
 
@@ -736,6 +762,7 @@ struct jarg {
   uint8_t *cvs;
   size_t *n;
   tnode node;
+  tbbctx *ctx;
   int sig;
 };
 static void jrun(void *v) {
@@ -746,6 +773,7 @@ static void jrun(void *v) {
 static void *jthread(void *v) {
   struct jarg *a = v;
   cur_node = &a->node;
+  cur_tbb = a->ctx;
   a->sig = guarded(jrun, a);
   tnode *parent = a->node.parent;
   atomic_fetch_sub(&g_live_threads, 1);
@@ -759,13 +787,14 @@ void blake3_compress_subtree_wide_join_tbb(const uint32_t key[8], uint8_t flags,
                                            const uint8_t *r_input, size_t r_input_len,
                                            uint64_t r_chunk_counter, uint8_t *r_cvs, size_t *r_n) {
   int mode = 0;
-  if (use_tbb) {
-    unsigned long idx = atomic_fetch_add(&g_join_count, 1);
-    if (g_script_len) mode = g_script[idx % g_script_len];
+  tbbctx *ctx = cur_tbb;
+  if (use_tbb && ctx != NULL) {
+    unsigned long idx = atomic_fetch_add(&ctx->joins, 1);
+    if (ctx->len) mode = ctx->script[idx % ctx->len];
   }
   if (mode == 2) {
     struct jarg a = {key,   flags, use_tbb, r_input, r_input_len, r_chunk_counter,
-                     r_cvs, r_n,   {0, NULL}, 0};
+                     r_cvs, r_n,   {0, NULL}, ctx, 0};
     pthread_t th;
     pthread_attr_t at;
     bool started = false;
@@ -851,10 +880,10 @@ static int op_fin(char **t, int nt, bool seek_api) {
   }
   flags |= san_flag(sanb);
   if (flags & FLAG_FAULT) {
-    fputs("FAULT", stdout);
+    fputs("FAULT", OUT);
     put_flags(flags & ~FLAG_FAULT);
   } else if (flags & FLAG_PANIC) {
-    fputs("PANIC", stdout);
+    fputs("PANIC", OUT);
     put_flags(flags & ~FLAG_PANIC);
   } else {
     put_hex(first, len);
@@ -887,7 +916,7 @@ static int op_clone(char **t, int nt) {
   reg_t *r2 = reg_get_or_create(t[1]);
   if (!r2) return -1;
   if (r != r2) r2->h = r->h; /* struct copy */
-  fputs("ok", stdout);
+  fputs("ok", OUT);
   return 0;
 }
 static int op_same(char **t, int nt, bool live_only) {
@@ -909,7 +938,7 @@ static int op_same(char **t, int nt, bool live_only) {
                 32 * (size_t)(x->cv_stack_len <= BLAKE3_MAX_DEPTH + 1 ? x->cv_stack_len
                                                                       : BLAKE3_MAX_DEPTH + 1)) == 0;
   }
-  fputs(eq ? "eq" : "ne", stdout);
+  fputs(eq ? "eq" : "ne", OUT);
   return 0;
 }
 
@@ -930,20 +959,20 @@ static int parse_level(const char *s) {
   return -1;
 }
 static int op_feat(char **t, int nt) {
-  if (nt != 1) return -1;
+  if (nt != 1 || g_in_section) return -1; /* --threads: only the preamble may set the level */
   if (strcmp(t[0], "detect") == 0) {
     atomic_store(&g_cpu_features, CF_UNDEFINED);
-    fputs("ok", stdout);
+    fputs("ok", OUT);
     return 0;
   }
   int lv = parse_level(t[0]);
   if (lv < 0) return -1;
   if (!cpu_has(lv)) {
-    fputs("unsupported", stdout);
+    fputs("unsupported", OUT);
     return 0;
   }
   atomic_store(&g_cpu_features, level_mask(lv));
-  fputs("ok", stdout);
+  fputs("ok", OUT);
   return 0;
 }
 /* extension: `<mask the dispatcher works with> <blake3_simd_degree()> <mask according to
@@ -953,16 +982,16 @@ static int op_featmask(int nt) {
   (void)blake3_simd_degree(); /* calls get_cpu_features() */
   int lv = LV_PORTABLE;
   while (lv < LV_AVX512 && cpu_has(lv + 1)) lv++;
-  printf("%d %zu %d", (int)atomic_load(&g_cpu_features), blake3_simd_degree(), level_mask(lv));
+  fprintf(OUT, "%d %zu %d", (int)atomic_load(&g_cpu_features), blake3_simd_degree(), level_mask(lv));
   return 0;
 }
 
 /* ------------------------------------------------------------------------------------------- */
 /* kernel ops                                                                                   */
 
-static struct tramp g_tramp;
-static uint64_t g_sentinel_ctr;
-static int g_dirty; /* CK dirty <0|1|2>: garbage in the unused upper bits of 8-bit arguments */
+static __thread struct tramp g_tramp;
+static __thread uint64_t g_sentinel_ctr;
+static __thread int g_dirty; /* CK dirty <0|1|2>: garbage in the unused upper bits of 8-bit arguments */
 
 static uint64_t narrow_arg(uint64_t v) {
   switch (g_dirty) {
@@ -1031,7 +1060,7 @@ static int ck_single(char **t, int nt, bool xof) {
     return -1;
   void *fn = xof ? f->cxof : f->cip;
   if (fn == NULL || !cpu_has(f->level)) {
-    fputs("unsupported", stdout);
+    fputs("unsupported", OUT);
     return 0;
   }
   size_t outlen = xof ? 64 : 32;
@@ -1100,7 +1129,7 @@ static int ck_hmany(char **t, int nt) {
   if (n != 0 && len > MAX_KERNEL_BYTES / n) return -1;
   size_t total_in = n * len, total_out = n * 32;
   if (f->hmany == NULL || !cpu_has(f->level)) {
-    fputs("unsupported", stdout);
+    fputs("unsupported", OUT);
     return 0;
   }
   if (!arena_need(&AR_IN, total_in + MAX_OFF + 64) ||
@@ -1173,7 +1202,7 @@ static int ck_xofmany(char **t, int nt) {
       !parse_size(t[6], MAX_KERNEL_BYTES / 64, &n))
     return -1;
   if (f->xofmany == NULL || !cpu_has(f->level)) {
-    fputs("unsupported", stdout);
+    fputs("unsupported", OUT);
     return 0;
   }
   size_t outlen = n * 64;
@@ -1219,7 +1248,7 @@ static int ck_list(int nt) {
   if (nt != 0) return -1;
   for (size_t i = 0; i < NFLAVOURS; i++) {
     const flavour_t *f = &FLAVOURS[i];
-    printf("%s%s:%c%c%c%c:%s", i ? " " : "", f->name, f->cip ? 'i' : '-', f->cxof ? 'x' : '-',
+    fprintf(OUT, "%s%s:%c%c%c%c:%s", i ? " " : "", f->name, f->cip ? 'i' : '-', f->cxof ? 'x' : '-',
            f->hmany ? 'h' : '-', f->xofmany ? 'm' : '-', cpu_has(f->level) ? "cpu" : "nocpu");
   }
   return 0;
@@ -1229,7 +1258,7 @@ static int ck_dirty(char **t, int nt) {
   uint64_t v;
   if (nt != 1 || !parse_u64(t[0], &v) || v > 2) return -1;
   g_dirty = (int)v;
-  fputs("ok", stdout);
+  fputs("ok", OUT);
   return 0;
 }
 
@@ -1272,52 +1301,187 @@ static int dispatch(char **t, int nt) {
   return -1;
 }
 
-int main(void) {
-  PAGE = (size_t)sysconf(_SC_PAGESIZE);
-  cur_node = &main_node;
-  install_handlers();
+/* per-thread set-up of everything an op needs; returns the alternate stack (NULL = failure) */
+static void *thread_setup(FILE *out) {
+  cur_node = &root_node;
+  g_out = out;
   if (!arena_need(&AR_HASHER, sizeof(blake3_hasher)) || !arena_need(&AR_CV, 32) ||
       !arena_need(&AR_BLK, 64) || !arena_need(&AR_PTR, 8) || !arena_need(&AR_IN, 1) ||
-      !arena_need(&AR_OUT, 1) || !arena_need(&AR_DATA, 1)) {
+      !arena_need(&AR_OUT, 1) || !arena_need(&AR_DATA, 1))
+    return NULL;
+  return altstack_install();
+}
+static void thread_teardown(void *alt) {
+  arena_t *all[] = {&AR_CV, &AR_BLK, &AR_PTR, &AR_IN, &AR_OUT, &AR_HASHER, &AR_DATA};
+  for (size_t i = 0; i < sizeof all / sizeof all[0]; i++)
+    if (all[i]->base) munmap(all[i]->base, all[i]->cap + 2 * PAGE);
+  for (size_t b = 0; b < NBUCKETS; b++)
+    for (reg_t *r = buckets[b], *nx; r; r = nx) {
+      nx = r->next;
+      free(r);
+    }
+  altstack_remove(alt);
+}
+
+/* one input line (n bytes, without the newline; the buffer is modified) -> one output line */
+static void process_line(char *line, size_t n) {
+  /* a NUL inside the line would hide the rest from the tokenizer */
+  bool has_nul = memchr(line, 0, n) != NULL;
+  line[n] = 0;
+  while (n && (line[n - 1] == '\n' || line[n - 1] == '\r' || line[n - 1] == ' ' ||
+               line[n - 1] == '\t'))
+    line[--n] = 0;
+  char *s = line;
+  while (*s == ' ' || *s == '\t') s++;
+  if (*s == 0 && !has_nul) { /* empty line: empty output, like the Rust driver */
+    fputc('\n', OUT);
+    return;
+  }
+  char *tok[MAX_TOKENS];
+  int nt = 0;
+  bool bad = has_nul;
+  while (!bad) {
+    if (nt == MAX_TOKENS) {
+      bad = true;
+      break;
+    }
+    tok[nt++] = s;
+    char *sp = strchr(s, ' ');
+    if (!sp) break;
+    *sp = 0;
+    s = sp + 1;
+  }
+  if (bad || dispatch(tok, nt) != 0) fputs("bad-op", OUT);
+  fputc('\n', OUT);
+}
+
+/* ---- cdriver --threads ----------------------------------------------------------------------
+ * stdin = [preamble lines] { "#thread" section-lines }.  The preamble runs on the main thread;
+ * then one thread per section, all released by a barrier; the output is printed afterwards in
+ * input order with a `#thread` line before every section. */
+typedef struct {
+  char **lines; /* pointers into the input buffer */
+  size_t *lens;
+  size_t nlines;
+  char *out; /* open_memstream */
+  size_t outlen;
+  pthread_t th;
+  int err;
+} section_t;
+static pthread_barrier_t g_barrier;
+
+static void *section_thread(void *v) {
+  section_t *sec = v;
+  FILE *f = open_memstream(&sec->out, &sec->outlen);
+  void *alt = f ? thread_setup(f) : NULL;
+  if (!alt) sec->err = 1;
+  g_in_section = true;
+  pthread_barrier_wait(&g_barrier); /* everybody is set up: go */
+  if (!sec->err)
+    for (size_t i = 0; i < sec->nlines; i++) process_line(sec->lines[i], sec->lens[i]);
+  if (f) fclose(f);
+  if (alt) thread_teardown(alt);
+  return NULL;
+}
+
+static int threads_main(void) {
+  /* read everything */
+  size_t cap = 1 << 16, len = 0;
+  char *buf = malloc(cap + 1);
+  if (!buf) return 2;
+  for (;;) {
+    size_t k = fread(buf + len, 1, cap - len, stdin);
+    len += k;
+    if (k == 0) break;
+    if (len == cap) {
+      cap *= 2;
+      char *nb = realloc(buf, cap + 1);
+      if (!nb) return 2;
+      buf = nb;
+    }
+  }
+  /* split into lines; a final line without newline counts */
+  size_t nl = 0;
+  for (size_t i = 0; i < len; i++) nl += buf[i] == '\n';
+  if (len && buf[len - 1] != '\n') nl++;
+  char **lines = malloc((nl + 1) * sizeof *lines);
+  size_t *lens = malloc((nl + 1) * sizeof *lens);
+  section_t *secs = malloc((nl + 1) * sizeof *secs);
+  if (!lines || !lens || !secs) return 2;
+  size_t n = 0;
+  for (size_t st = 0; st < len;) {
+    char *e = memchr(buf + st, '\n', len - st);
+    size_t ll = e ? (size_t)(e - (buf + st)) : len - st;
+    lines[n] = buf + st;
+    lens[n] = ll;
+    n++;
+    st += ll + 1;
+  }
+  /* sections */
+  size_t nsec = 0, npre = n;
+  for (size_t i = 0; i < n; i++) {
+    size_t ll = lens[i];
+    while (ll && (lines[i][ll - 1] == '\r' || lines[i][ll - 1] == ' ')) ll--;
+    if (ll == 7 && memcmp(lines[i], "#thread", 7) == 0) {
+      if (nsec == 0) npre = i;
+      memset(&secs[nsec], 0, sizeof secs[nsec]);
+      secs[nsec].lines = lines + i + 1;
+      secs[nsec].lens = lens + i + 1;
+      nsec++;
+    } else if (nsec) {
+      secs[nsec - 1].nlines++;
+    }
+  }
+  /* preamble on the main thread (this is where `C feat <level>` goes).  Without a preamble
+   * nothing has called into the library yet: g_cpu_features is still UNDEFINED. */
+  for (size_t i = 0; i < npre; i++) process_line(lines[i], lens[i]);
+  if (nsec) {
+    if (pthread_barrier_init(&g_barrier, NULL, (unsigned)nsec) != 0) return 2;
+    for (size_t i = 0; i < nsec; i++)
+      if (pthread_create(&secs[i].th, NULL, section_thread, &secs[i]) != 0) {
+        fputs("cdriver: pthread_create failed\n", stderr);
+        _exit(2); /* the threads already started wait on the barrier */
+      }
+    for (size_t i = 0; i < nsec; i++) pthread_join(secs[i].th, NULL);
+    pthread_barrier_destroy(&g_barrier);
+  }
+  int rc = 0;
+  for (size_t i = 0; i < nsec; i++) {
+    fputs("#thread\n", stdout);
+    if (secs[i].err) {
+      fputs("cdriver: thread set-up failed\n", stderr);
+      rc = 2;
+    }
+    if (secs[i].out) fwrite(secs[i].out, 1, secs[i].outlen, stdout);
+    free(secs[i].out);
+  }
+  fflush(stdout);
+  free(secs);
+  free(lens);
+  free(lines);
+  free(buf);
+  return rc;
+}
+
+int main(int argc, char **argv) {
+  PAGE = (size_t)sysconf(_SC_PAGESIZE);
+  install_handlers();
+  static char outbuf[1 << 16];
+  setvbuf(stdout, outbuf, _IOFBF, sizeof outbuf);
+  if (!thread_setup(stdout)) {
     fputs("cdriver: cannot allocate guard arenas\n", stderr);
     return 2;
   }
-  static char outbuf[1 << 16];
-  setvbuf(stdout, outbuf, _IOFBF, sizeof outbuf);
+  if (argc == 2 && strcmp(argv[1], "--threads") == 0) return threads_main();
+  if (argc != 1) {
+    fputs("usage: cdriver [--threads] < ops\n", stderr);
+    return 2;
+  }
 
   char *line = NULL;
   size_t cap = 0;
   ssize_t got;
-  while ((got = getline(&line, &cap, stdin)) >= 0) {
-    size_t n = (size_t)got;
-    /* a NUL inside the line would hide the rest from the tokenizer */
-    bool has_nul = memchr(line, 0, n) != NULL;
-    while (n && (line[n - 1] == '\n' || line[n - 1] == '\r' || line[n - 1] == ' ' ||
-                 line[n - 1] == '\t'))
-      line[--n] = 0;
-    char *s = line;
-    while (*s == ' ' || *s == '\t') s++;
-    if (*s == 0 && !has_nul) { /* empty line: empty output, like the Rust driver */
-      fputc('\n', stdout);
-      continue;
-    }
-    char *tok[MAX_TOKENS];
-    int nt = 0;
-    bool bad = has_nul;
-    while (!bad) {
-      if (nt == MAX_TOKENS) {
-        bad = true;
-        break;
-      }
-      tok[nt++] = s;
-      char *sp = strchr(s, ' ');
-      if (!sp) break;
-      *sp = 0;
-      s = sp + 1;
-    }
-    if (bad || dispatch(tok, nt) != 0) fputs("bad-op", stdout);
-    fputc('\n', stdout);
-  }
+  while ((got = getline(&line, &cap, stdin)) >= 0) process_line(line, (size_t)got);
   free(line);
   fflush(stdout);
   return 0;
